@@ -39,7 +39,7 @@ def _spec(cmd: Any) -> dict[str, Any]:
 
 def enter(cmd: Any, phase: str) -> None:
     PHASES.append(phase)
-    logger.info(f"{MARKER}{phase}")
+    logger.warning(f"{MARKER}{phase}")  # well above any plausible file log level
 
 
 async def inject(cmd: Any, point: str, where: str = "pre") -> None:
@@ -74,7 +74,7 @@ async def inject(cmd: Any, point: str, where: str = "pre") -> None:
         fd = os.open(sp["sync"], os.O_WRONLY)
         os.write(fd, b"ready\n")
         os.close(fd)
-        await asyncio.sleep(20)
+        await asyncio.sleep(90)
         os._exit(SIGINT_NEVER_ARRIVED)
 
 
